@@ -320,8 +320,64 @@ func (g *ribGen) dagCase() RCase {
 	return c
 }
 
+// retargetCase: every instance holds a next-hop and two groups; top-level entries are then pointed from group to
+// group, within and across instances (implicit and explicit replace), interleaved with deletes of the groups and of
+// the entries, re-adds and the occasional flush.
+func (g *ribGen) retargetCase() RCase {
+	c := RCase{NoFwd: g.r.Chance(1, 5), Steps: []RStep{{K: "addni", NI: 2}, {K: "addni", NI: 3}}}
+	add := func(k string, o drv.OpSpec) {
+		o.ID = g.id()
+		c.Steps = append(c.Steps, RStep{K: k, Op: &o})
+	}
+	nis := []int{1, 2, 3}
+	for _, n := range nis {
+		add("add", drv.OpSpec{NI: n, Kind: "ADD", T: "nh", Key: 1})
+		for gi := uint64(1); gi <= 2; gi++ {
+			add("add", drv.OpSpec{NI: n, Kind: "ADD", T: "nhg", Key: gi, NHs: [][2]uint64{{1, 1}}})
+		}
+	}
+	top := func() drv.OpSpec {
+		o := drv.OpSpec{NI: drv.Pick(g.r, nis...), T: drv.Pick(g.r, "v4", "v4", "v6", "mpls")}
+		switch o.T {
+		case "v4":
+			o.Key = uint64(1 + g.r.Intn(2))
+		case "v6":
+			o.Key = 1
+		default:
+			o.Key = 100
+		}
+		return o
+	}
+	for i := 0; i < 6+g.r.Intn(14); i++ {
+		switch x := g.r.Intn(20); {
+		case x < 11:
+			o := top()
+			o.Kind = drv.Pick(g.r, "ADD", "ADD", "REPLACE")
+			o.NHG = uint64(1 + g.r.Intn(2))
+			if g.r.Chance(3, 4) {
+				o.NHGN = drv.Pick(g.r, nis...)
+			}
+			add("add", o)
+		case x < 14:
+			o := top()
+			o.Kind = "DELETE"
+			add("del", o)
+		case x < 17:
+			add("del", drv.OpSpec{NI: drv.Pick(g.r, nis...), Kind: "DELETE", T: "nhg", Key: uint64(1 + g.r.Intn(2))})
+		case x < 19:
+			add("add", drv.OpSpec{NI: drv.Pick(g.r, nis...), Kind: "ADD", T: "nhg", Key: uint64(1 + g.r.Intn(2)), NHs: [][2]uint64{{1, 1}}})
+		default:
+			c.Steps = append(c.Steps, RStep{K: "flush", NIs: [][]int{{1}, {2}, {3}, {1, 2}, {1, 2, 3}}[g.r.Intn(5)]})
+		}
+	}
+	return c
+}
+
 func genRCase(r *drv.Rng, prof string) RCase {
 	g := &ribGen{r: r, prof: prof}
+	if (prof == "C03" && r.Chance(1, 2)) || (prof == "C01" && r.Chance(1, 6)) {
+		return g.retargetCase()
+	}
 	if prof == "C02" && r.Chance(3, 4) {
 		return g.dagCase()
 	}
@@ -717,14 +773,24 @@ func oracleC03(c RCase) string {
 	if problem != "" {
 		return problem
 	}
-	nh, nhg, grpRefs, nhRefs, _ := installedSets(last)
 	for _, name := range last.KnownNetworkInstances() {
 		n := drv.NICode(name)
 		for id := uint64(1); id <= 3; id++ {
 			for _, t := range []string{"nhg", "nh"} {
 				probe := &drv.OpSpec{ID: 1 << 40, NI: n, Kind: "DELETE", T: t, Key: id}
 				pc := RCase{NoFwd: c.NoFwd, Steps: append(append([]RStep{}, c.Steps...), RStep{K: "del", Op: probe})}
-				obs, _ := ribRun(pc, nil)
+				// what is installed is read in the same run, just before the probe: the order in which several held
+				// operations that became resolvable together are applied may differ from run to run
+				var nh, nhg map[niKey]bool
+				var grpRefs, nhRefs map[niKey]int
+				obs, _ := ribRun(pc, func(i int, st RStep, o StepObs, r *rib.RIB) {
+					if i == len(c.Steps)-1 {
+						nh, nhg, grpRefs, nhRefs, _ = installedSets(r)
+					}
+				})
+				if nh == nil {
+					continue
+				}
 				o := obs[len(obs)-1]
 				failed := len(o.Fails) == 1 && len(o.Oks) == 0
 				okd := len(o.Oks) == 1 && len(o.Fails) == 0
@@ -764,7 +830,7 @@ func runRib(prop string, args []string) error {
 	rules := map[string]string{
 		"C01": "random RIB histories (ADD/REPLACE/DELETE over 5 entry kinds, 3 network instances, key reuse, payload changes, cross-instance references, flushes, both forward-reference modes); non-trivial = at least one REPLACE or DELETE acknowledged and at least one operation resolved by a cascade; distinct by canonical history text",
 		"C02": "arrival-order permutations of random dependency DAGs plus random histories; non-trivial = some operation was held and later acknowledged by a cascade; distinct by canonical history text",
-		"C03": "random histories biased to retargeting; non-trivial = some reference counter changed by a replace that moved a reference or by a flush, and some delete was refused; distinct by canonical history text",
+		"C03": "random histories, half of them retarget histories (entries pointed from group to group within and across network instances by implicit/explicit replace, interleaved with deletes, re-adds, flushes); non-trivial = some reference counter changed by a replace that moved a reference or by a flush, and some delete was refused; distinct by canonical history text",
 	}
 	rep := drv.Report{Property: prop, Seed: *f.Seed, Shard: drv.ShardSize, Stats: map[string]int{}, Cases: len(cases), Rule: rules[prop]}
 	var coq []string
